@@ -179,3 +179,7 @@ Proof. exact buffer_flush_simulates_writer. Qed.
 Theorem c08_translated_buffer_contents : forall bufs,
   g_buffer_as_bytes (fst (g_buffer_writes g_buffer_new bufs)) = concat bufs.
 Proof. exact buffer_new_as_bytes. Qed.
+
+(* `AutoStream::wincon` in this configuration (no legacy console): the raw stream comes back, no stream is built *)
+Theorem c08_translated_wincon_unavailable : forall cf raw, g_as_wincon cf raw = inr raw.
+Proof. exact g_as_wincon_eq. Qed.
